@@ -15,10 +15,19 @@ def header_strings(an, rep):
     # the header is written from finish(): establish that it is emitted after the buffered fields
     fin = core.find("AdtSerializer<Output>::finish")
     if fin:
-        ks = [i["key"] for _, _, i in mir.calls(fin)]
-        R.check("AdtSerializer<Output>::write_evolution_header" in ks and "AdtSerializer<Output>::write_ordered_chunks" in ks,
-                "AdtSerializer<Output>::finish", "header then chunks", "finish() does not emit header and chunks", None,
-                sample={"finish calls": [k for k in ks if k.startswith("AdtSerializer")]})
+        # on every path of finish() that writes anything, the header call comes first and chunk bytes follow it
+        from .. import walk
+        ok_paths = 0
+        for p in walk.walk(fin, core):
+            hs = p.calls("AdtSerializer<Output>::write_evolution_header")
+            ws = [e for e in p.events if e[0] == "call" and e[3].startswith("BinaryOutput::write_")]
+            if not hs and not ws:
+                continue
+            good = len(hs) == 1 and all(p.events.index(w) > p.events.index(hs[0]) for w in ws)
+            ok_paths += 1 if (good and ws) else 0
+            R.check(good, "AdtSerializer<Output>::finish", "header then chunks", "finish() writes chunk bytes without / before "
+                    "the evolution header", None, sample={"finish": "write_evolution_header, then the chunk buffers"})
+        R.check(ok_paths > 0, "AdtSerializer<Output>::finish", "header then chunks", "finish() does not emit header and chunks")
     paths = cg.reach([hdr])
     hits = [p for d, p in paths.items() if core.bodies[d].key == "State::store_string"]
     # generic calls `step.serialize(ctx)` are resolved for SerializedEvolutionStep (concrete type): follow BinarySerializer
